@@ -69,13 +69,20 @@ func faultDecoders(o *cached) []decoder {
 // ---------------------------------------------------------------------------------------------
 // family 5: truncation
 
-func famTruncation(x *lc) {
-	ds := faultDecoders(x.o)
-	if len(ds) == 0 {
-		x.c.Skip("no decoder / no reference encoding")
-		return
+func famTruncation(t *lc) {
+	n := 0
+	for _, x := range t.values() {
+		for _, d := range faultDecoders(x.o) {
+			n++
+			truncationValue(x, d)
+		}
 	}
-	d := ds[x.c.Choose(len(ds), "decoder")]
+	if n == 0 {
+		t.c.Skip("no decoder / no reference encoding")
+	}
+}
+
+func truncationValue(x *lc, d decoder) {
 	ref, _ := x.o.ref(d)
 	offs := faultOffsets(len(ref), x.c.Tier)
 	x.c.Cover("trunc-decoder", d.name)
@@ -100,7 +107,7 @@ func famTruncation(x *lc) {
 		}
 	}
 	x.c.Count(len(jobs))
-	x.c.Outcome(x.name, d.name, errs)
+	x.c.Outcome(x.name, x.label(), d.name, errs)
 }
 
 // ---------------------------------------------------------------------------------------------
@@ -222,8 +229,8 @@ const probeLen = 1 << 19
 type danger struct {
 	field
 	alloc     uint64 // bytes allocated by the 2^20 probe
-	confirmed string // result of the one real over-the-limit allocation ("" = not the confirming field)
-	site      string // panic site when the same field holds 2^63 (names the decoder that trusts the length)
+	confirmed string // result of the real over-the-limit allocation that confirmed this decoder function
+	site      string // decoder function that reads (hence trusts) the field, "" if the trace does not name one
 }
 
 var (
@@ -261,11 +268,23 @@ func (x *lc) dangers(d decoder, ref []byte) []danger {
 	var r []danger
 	hdr := x.header(&d)
 	type confirmation struct {
-		ok        bool
-		msg, site string
+		ok  bool
+		msg string
 	}
 	groups := map[string]confirmation{}
 	if !isJSONText(ref) {
+		// which decoder function reads which bytes of the valid encoding: the function that reads a length is the
+		// one that trusts it. Established from the call stacks of the reader calls of one traced decode, i.e. a
+		// deterministic function of the encoding.
+		owners := runJob(hdr, job{Op: "owners", Decoder: d.name}).Owners
+		owner := func(o int) string {
+			for _, sg := range owners {
+				if sg.Lo <= o && o < sg.Hi {
+					return sg.Fn
+				}
+			}
+			return ""
+		}
 		enc := func(f field, v uint64) []byte {
 			b := make([]byte, f.width)
 			putField(b, field{0, f.width}, v)
@@ -289,15 +308,10 @@ func (x *lc) dangers(d decoder, ref []byte) []danger {
 				if out.Fatal != "" || out.Alloc < probeLen || out.Alloc <= 16*uint64(len(ref))+1<<16 {
 					continue
 				}
-				dz := danger{field: f, alloc: out.Alloc}
-				if w == 8 {
-					if o2 := runJob(hdr, x.corruptJob(d, o, enc(f, 1<<63), false)); o2.Panic != "" {
-						dz.site = o2.Site
-					}
-				}
-				// Confirmation by one real allocation above the limit, once per decoder that trusts the length (the
-				// panic site; fields without one are confirmed individually). A decoder that caps the length fails
-				// the confirmation: its fields are not findings, and their large values are executed like any other.
+				dz := danger{field: f, alloc: out.Alloc, site: owner(o)}
+				// Confirmation by one real allocation above the limit, once per decoder function that trusts the
+				// length (fields nobody owns are confirmed individually). A decoder that caps the length fails the
+				// confirmation: its fields are not findings, and their large values are executed like any other.
 				grp := dz.site
 				if grp == "" {
 					grp = fmt.Sprintf("field@%d/%d", o, w)
@@ -311,10 +325,9 @@ func (x *lc) dangers(d decoder, ref []byte) []danger {
 						v <<= 1
 					}
 					o3 := runJob(hdr, x.corruptJob(d, o, enc(f, v), false))
-					c.site = o3.AllocSite
 					switch {
 					case o3.Fatal == "out-of-memory":
-						c.ok, c.site = true, o3.FatalSite
+						c.ok = true
 						c.msg = fmt.Sprintf("confirmed: with the field at offset %d set to 2^%d the process was killed (fatal error: out of memory)", o, bits.Len64(v)-1)
 					case o3.Alloc > allocLimit(len(ref)):
 						c.ok = true
@@ -326,9 +339,6 @@ func (x *lc) dangers(d decoder, ref []byte) []danger {
 					continue
 				}
 				dz.confirmed = c.msg
-				if dz.site == "" && c.site != "unknown" {
-					dz.site = c.site // no panic names the decoder that trusts this length: the heap profile does
-				}
 				r = append(r, dz)
 			}
 		}
@@ -350,21 +360,28 @@ func tooDangerous(dz []danger, data []byte, lo, hi int) bool {
 	return false
 }
 
-func famCorruption(x *lc) {
-	ds := faultDecoders(x.o)
-	if len(ds) == 0 {
-		x.c.Skip("no decoder / no reference encoding")
-		return
+func famCorruption(t *lc) {
+	n := 0
+	for _, x := range t.values() {
+		for _, d := range faultDecoders(x.o) {
+			if corruptionValue(x, d) {
+				n++
+			}
+		}
 	}
-	d := ds[x.c.Choose(len(ds), "decoder")]
+	if n == 0 {
+		t.c.Skip("no decoder / no reference encoding / empty encoding")
+	}
+}
+
+func corruptionValue(x *lc, d decoder) bool {
 	ref, _ := x.o.ref(d)
 	fs := headerFields(ref, x.c.Tier)
 	if x.e.heavy && x.c.Tier == "quick" && len(fs) > 96 { // decoding builds rings: milliseconds per accepted variant
 		fs = fs[:96]
 	}
 	if len(fs) == 0 {
-		x.c.Skip("empty encoding")
-		return
+		return false
 	}
 	x.c.Cover("corrupt-decoder", d.name)
 	// JSON texts: a damaged byte may rename or drop a key, which encoding/json accepts by design; only panics and
@@ -383,20 +400,12 @@ func famCorruption(x *lc) {
 		}
 		for _, z := range dz {
 			if z.field == f {
-				if z.site == "" {
-					// The heap profile did not name the allocating function this time (its records are published
-					// asynchronously by the runtime): the signature would not be stable, so this leaf is not judged.
-					// The same defect sites are reached through many other types and leaves.
-					x.c.Cover("corrupt-result", "unchecked-length-allocation-site-not-attributed")
-					continue
+				s, k := z.site, "unchecked-length" // same signature as the panics the same field causes in that decoder
+				if s == "" {
+					s, k = subj, "unbounded-alloc"
 				}
-				s, k := z.site, "unchecked-length" // same signature as the panics the same field causes there
-				msg := fmt.Sprintf("%s [%s] via %s: the %d-byte field at offset %d is an unchecked length: set to 2^19 the decoder allocated %d KiB for a %d-byte input (%.1f bytes per claimed element, i.e. %.0f GiB at 2^31); larger values are not executed",
-					x.e.name, x.e.vals[x.vi].label, d.name, w, f.off, z.alloc>>10, len(ref), float64(z.alloc)/probeLen, float64(z.alloc)/probeLen*2)
-				if z.confirmed != "" {
-					msg += "; " + z.confirmed
-				}
-				x.c.Fail(sig("corruption", s, k), "%s", msg)
+				x.c.Fail(sig("corruption", s, k), "%s [%s] via %s: the %d-byte field at offset %d is an unchecked length: set to 2^19 the decoder allocated %d KiB for a %d-byte input (%.1f bytes per claimed element, i.e. %.0f GiB at 2^31); larger values are not executed; %s",
+					x.e.name, x.label(), d.name, w, f.off, z.alloc>>10, len(ref), float64(z.alloc)/probeLen, float64(z.alloc)/probeLen*2, z.confirmed)
 			}
 		}
 		for _, val := range corruptValues(ref, f) {
@@ -433,7 +442,7 @@ func famCorruption(x *lc) {
 			x.c.Fail(sig("corruption", subj, "count-beyond-input"), "%s: returned n=%d for %d bytes", what, r.N, len(ref))
 		}
 		if r.Invalid != "" {
-			x.c.Fail(sig("corruption", subj, "accepted-invalid:"+r.Invalid), "%s [%s]: %s was accepted without error, but %s", x.e.name, x.e.vals[x.vi].label, what, r.InvalidMsg)
+			x.c.Fail(sig("corruption", subj, "accepted-invalid:"+r.Invalid), "%s [%s]: %s was accepted without error, but %s", x.e.name, x.label(), what, r.InvalidMsg)
 		}
 	}
 	x.c.Count(len(jobs))
@@ -446,19 +455,22 @@ func famCorruption(x *lc) {
 	if skipped > 0 {
 		x.c.Cover("corrupt-result", "not-executed-beyond-reported-unchecked-length")
 	}
-	x.c.Outcome(x.name, d.name, rejected, accepted, skipped)
+	x.c.Outcome(x.name, x.label(), d.name, rejected, accepted, skipped)
+	return true
 }
 
-// failAlloc reports an allocation request above the limit, under the function that made it when known.
+// failAlloc reports an allocation request above the limit, under the decoder function that made it: the innermost
+// library frame of the fatal traceback when the request killed the process, else the function named by a traced
+// repetition of the decode (the one that consumed the stream right before the allocation) - for the decoders of
+// this library these are the same function, so the signature does not depend on whether the runtime happened to
+// satisfy the request. Without either, the decoder under test.
 func (x *lc) failAlloc(family, subj string, r result, what string, n int) {
 	site, fate := r.AllocSite, fmt.Sprintf("the decoder allocated %d MiB (err=%q)", r.Alloc>>20, r.Err)
 	if r.Fatal != "" {
 		site, fate = r.FatalSite, fmt.Sprintf("THE PROCESS WAS KILLED (fatal error: out of memory, request of %d MiB)", r.Alloc>>20)
 	}
 	if site == "" || site == "unknown" {
-		// no stable signature without the allocating function (see famCorruption): not judged
-		x.c.Cover("corrupt-result", "unchecked-length-allocation-site-not-attributed")
-		x.c.Note("unattributed allocation: %s [%s]: %s, a %d-byte input: %s", x.e.name, x.label(), what, n, fate)
+		x.c.Fail(sig(family, subj, "unbounded-alloc"), "%s [%s]: %s, a %d-byte input: %s", x.e.name, x.label(), what, n, fate)
 		return
 	}
 	x.c.Fail(sig(family, site, "unchecked-length"), "%s [%s]: %s, a %d-byte input: %s in %s", x.e.name, x.label(), what, n, fate, site)
@@ -469,15 +481,25 @@ func (x *lc) failAlloc(family, subj string, r result, what string, n int) {
 
 var failingWriters = []string{"io.Writer", "bufio.Writer(64)", "buffer.Buffer(too small)"}
 
-func famWriterFailure(x *lc) {
-	if x.o.a.wt == nil || !x.o.wbinOK {
-		x.c.Skip("type has no WriteTo")
-		return
+func famWriterFailure(t *lc) {
+	wk := t.c.Choose(len(failingWriters), "failing-writer")
+	t.c.Cover("failing-writer", failingWriters[wk])
+	n := 0
+	for _, x := range t.values() {
+		if x.o.a.wt == nil || !x.o.wbinOK {
+			continue
+		}
+		n++
+		writerFailureValue(x, wk)
 	}
+	if n == 0 {
+		t.c.Skip("type has no WriteTo")
+	}
+}
+
+func writerFailureValue(x *lc, wk int) {
 	n := len(x.o.wbin)
 	offs := faultOffsets(n, x.c.Tier)
-	wk := x.c.Choose(len(failingWriters), "failing-writer")
-	x.c.Cover("failing-writer", failingWriters[wk])
 	errs := 0
 	for _, k := range offs {
 		var o outcome
@@ -509,5 +531,5 @@ func famWriterFailure(x *lc) {
 		}
 	}
 	x.c.Count(len(offs))
-	x.c.Outcome(x.name, wk, errs)
+	x.c.Outcome(x.name, x.label(), wk, errs)
 }
